@@ -114,12 +114,15 @@ pub struct Denotation<F> {
     /// (lhs, rhs) pairs asserted equal (connect / assert_zero / bool: x*(x-1) == 0)
     pub rel: Vec<(F, F, String)>,
     pub divisors: Vec<F>,
+    /// values asserted boolean (also present in `rel` as x*(x-1) == 0)
+    pub bools: Vec<F>,
 }
 
 pub fn denote<F: Field>(p: &Program, publics: &[F], privates: &[F], inv: impl Fn(F) -> F) -> Denotation<F> {
     let mut v: Vec<F> = Vec::new();
     let mut rel = Vec::new();
     let mut divisors = Vec::new();
+    let mut bools = Vec::new();
     let (mut np, mut nq) = (0, 0);
     for (si, s) in p.stmts.iter().enumerate() {
         match *s {
@@ -142,12 +145,15 @@ pub fn denote<F: Field>(p: &Program, publics: &[F], privates: &[F], inv: impl Fn
             Stmt::MulAdd(i, j, k) => v.push(v[i] * v[j] + v[k]),
             Stmt::Horner(a, al, z, x) => v.push(v[a] * v[al] + v[z] - v[x]),
             Stmt::Select(c, t, s) => v.push(v[s] + v[c] * (v[t] - v[s])),
-            Stmt::AssertBool(i) => rel.push((v[i] * (v[i] - F::ONE), F::ZERO, format!("stmt{si}:bool(v{i})"))),
+            Stmt::AssertBool(i) => {
+                bools.push(v[i]);
+                rel.push((v[i] * (v[i] - F::ONE), F::ZERO, format!("stmt{si}:bool(v{i})")))
+            }
             Stmt::Connect(i, j) => rel.push((v[i], v[j], format!("stmt{si}:connect(v{i},v{j})"))),
             Stmt::AssertZero(i) => rel.push((v[i], F::ZERO, format!("stmt{si}:zero(v{i})"))),
         }
     }
-    Denotation { vals: v, rel, divisors }
+    Denotation { vals: v, rel, divisors, bools }
 }
 
 // ------------------------------------------------------------------------------------
@@ -381,6 +387,44 @@ pub fn gen_fusion_dag(rng: &mut SmallRng) -> Program {
         });
         placed[i] = Some(nv);
         nv += 1;
+    }
+    Program { stmts }
+}
+
+/// Private-input aliasing family: one or two ops whose operands are drawn from a small input
+/// set containing private inputs (possibly repeated within one op), with the result connected
+/// back to one of the inputs, followed by an optional reader.
+pub fn gen_private_alias(rng: &mut SmallRng) -> Program {
+    let mut stmts = vec![Stmt::Public, Stmt::Public, Stmt::Private];
+    let mut nv = 3;
+    if rng.random_range(0..3) == 0 {
+        stmts.push(Stmt::Private);
+        nv += 1;
+    }
+    if rng.random_range(0..3) == 0 {
+        stmts.push(Stmt::Const(CONSTS[rng.random_range(0..CONSTS.len())]));
+        nv += 1;
+    }
+    let n_in = nv;
+    let n_ops = rng.random_range(1..=2);
+    for _ in 0..n_ops {
+        let o = |rng: &mut SmallRng| if rng.random_range(0..2) == 0 { 2 } else { rng.random_range(0..nv) };
+        let s = match rng.random_range(0..7) {
+            0 => Stmt::Add(o(rng), o(rng)),
+            1 => Stmt::Sub(o(rng), o(rng)),
+            2 => Stmt::Mul(o(rng), o(rng)),
+            3 => Stmt::Div(o(rng), o(rng)),
+            4 | 5 => Stmt::MulAdd(o(rng), o(rng), o(rng)),
+            _ => Stmt::Horner(o(rng), o(rng), o(rng), o(rng)),
+        };
+        stmts.push(s);
+        nv += 1;
+        if rng.random_range(0..2) == 0 {
+            stmts.push(Stmt::Connect(nv - 1, rng.random_range(0..n_in)));
+        }
+    }
+    if rng.random_range(0..2) == 0 {
+        stmts.push(Stmt::Mul(nv - 1, rng.random_range(0..nv)));
     }
     Program { stmts }
 }
